@@ -33,6 +33,7 @@ package execution
 // newShardedVectorSelector: one vector selector per shard i of numShards = max(1, GOMAXPROCS/2);
 // every shard gets the same selector, options and offset (C02, C11).
 //@ func newShardedVectorSelector
+//@   assigns elems(execution/model.VectorOperator)
 //@   requires optsOK(opts) && selector != nil
 //@   ensures[C08] never-fails: result1 == nil && result0 != nil
 //@   at scan.NewVectorSelector assert[C02,C11] shard-args: $selector == selector && $queryOpts == opts && $offset == offset &&
@@ -40,6 +41,7 @@ package execution
 //@   loop 0 invariant shards: 0 <= i && i <= numShards && numShards >= 1 && len(operators) == i
 
 //@ func newVectorBinaryOperator
+//@   assigns elems(execution/model.VectorOperator)
 //@   requires e != nil && selectorPool != nil && poolInv(selectorPool) && optsOK(opts)
 //@   requires e.LHS.Type() != parser.ValueTypeScalar && e.RHS.Type() != parser.ValueTypeScalar
 //@   requires[C16] hints.Func == "" && len(hints.Grouping) == 0 && !hints.By
@@ -54,6 +56,7 @@ package execution
 // newScalarBinaryOperator: the vector side is passed as `next`, the scalar side as `scalar`; the
 // side flag says where the scalar stood in the expression (C05).
 //@ func newScalarBinaryOperator
+//@   assigns elems(execution/model.VectorOperator)
 //@   requires e != nil && selectorPool != nil && poolInv(selectorPool) && optsOK(opts)
 //@   requires[C16] hints.Func == "" && len(hints.Grouping) == 0 && !hints.By
 //@   ensures[C08] err-is-unsupported-or-remote: result1 != nil ==> result1.isNS || result1.isNI || result1.fromRemote
@@ -78,6 +81,7 @@ package execution
 // each operator is built from the node's own parameters.
 //@ pred sameHintsRange(h, g) = h.Start == g.Start && h.End == g.End && h.Step == g.Step
 //@ func newOperator
+//@   assigns elems(execution/model.VectorOperator)
 //@   requires storage != nil && poolInv(storage) && optsOK(opts)
 //@   ensures[C08] err-is-unsupported-or-remote: result1 != nil ==> result1.isNS || result1.isNI || result1.fromRemote
 //@   ensures ok-nonnil: result1 == nil ==> result0 != nil
@@ -152,6 +156,7 @@ package execution
 // New: the per-query selector pool and options; hints start with the query window and step and
 // no function / grouping (C16); nothing is read from the storage (C08, C17).
 //@ func New
+//@   assigns elems(execution/model.VectorOperator)
 //@   requires step >= 0 && lookbackDelta >= 0
 //@   ensures[C08] err-is-unsupported-or-remote: result1 != nil ==> result1.isNS || result1.isNI || result1.fromRemote
 //@   at execution.newOperator assert[C01,C02,C07] options: $expr == expr && $opts.Start == mint && $opts.End == maxt && $opts.Step == step &&
